@@ -43,6 +43,28 @@ let ost x = om3 x.stE; ov3 x.str
 let beg tag seq label = pf "%s %d %s" tag seq label
 let fin () = pf "\n"
 let line tag seq label f = beg tag seq label; f (); fin ()
+(* Results of the implementation (second command-line argument: the output file of the C++ driver on the same
+   cases).  When present, the property residuals ("c" lines) are evaluated on the IMPLEMENTATION's results against
+   the L3 specification, so that a residual line that fails is a concrete input on which the code breaks the property. *)
+let impl_tbl : (string * int * string, float list) Hashtbl.t = Hashtbl.create 1024
+let cur_case = ref ""
+let load_impl path =
+  let ic = open_in path in
+  let cn = ref "" in
+  (try while true do
+      let l = input_line ic in
+      match String.split_on_char ' ' (String.trim l) with
+      | "case" :: n :: _ -> cn := n
+      | "o" :: sq :: lab :: rest ->
+        (try Hashtbl.replace impl_tbl (!cn, int_of_string sq, lab) (List.map float_of_string (List.filter (fun x -> x <> "") rest))
+         with Failure _ -> ())
+      | _ -> ()
+    done with End_of_file -> ());
+  close_in ic
+let impl_or seq label (dflt : float list) : float list =
+  match Hashtbl.find_opt impl_tbl (!cur_case, seq, label) with
+  | Some v when List.length v = List.length dflt && List.for_all (fun x -> Float.is_finite x) v -> v
+  | _ -> dflt
 
 let name_of nm = if nm = 0 then "" else if nm = 1 then "ROOT" else Printf.sprintf "n%d" nm
 
@@ -304,6 +326,7 @@ let cons_cmd c cmd t seq =
        spec_try (fun () ->
          (* independent residuals: equation of motion with the L3 inverse dynamics, and the measured
             second derivative of every constraint function along the returned acceleration *)
+         let qdd = impl_or seq "qdd" qdd and lam = impl_or seq "force" lam in
          let tn = spec_tau c m.gravity q qd qdd fe in
          let g = spec_G q in
          let gtl = mTvmul fo g nn lam in
@@ -323,6 +346,7 @@ let cons_cmd c cmd t seq =
        spec_try (fun () ->
          let h = spec_H c q in let g = spec_G q in
          line "i" seq "cond" (fun () -> od (max (cond_est h) (cond_est (kkt_matrix fo h g nn (nat_of_int (List.length c.crows))))));
+         let qdp = impl_or seq "qdplus" qdp and lam = impl_or seq "impulse" lam in
          let gq = mvmul fo g qdp in
          line "c" seq "imp_feasible" (fun () -> od (maxabs (List.map2 (fun a b -> a -. b) gq vp)); od (maxabs (gq @ vp)));
          let hd = mvmul fo h (List.map2 (fun a b -> a -. b) qdp qdm) in let gtl = mTvmul fo g nn lam in
@@ -457,8 +481,9 @@ let run_line c (l : string) seq =
            setw c w; line "o" seq "qdd" (fun () -> match qdd with Some x -> ovec x | None -> os "singular") end);
         (* property residuals on the model side: the acceleration the model returns, put into the L3 inverse dynamics,
            reproduces tau; and the energy balance holds along it *)
-        (if cmd = "fd" then spec_try (fun () ->
+        (spec_try (fun () ->
           let (_, qddm) = forward_dynamics fo c.m c.m.ws q qd tau (zeros n_qd) fe in
+          let qddm = impl_or seq "qdd" qddm in
           let tn = spec_tau c m.gravity q qd qddm fe in
           let res = List.fold_left2 (fun a x y -> max a (abs_float (x -. y))) 0. tn tau in
           let sc = List.fold_left (fun a x -> max a (abs_float x)) 0. (tau @ tn) in
@@ -632,6 +657,7 @@ let run_line c (l : string) seq =
 
 let main () =
   if Array.length Sys.argv < 2 then (prerr_endline "usage: driver casefile"; exit 2);
+  if Array.length Sys.argv >= 3 then load_impl Sys.argv.(2);
   let ic = open_in Sys.argv.(1) in
   let cases = ref [] and cur = ref [] and cname = ref "" in
   (try while true do
@@ -644,7 +670,7 @@ let main () =
   if !cname <> "" then cases := (!cname, List.rev !cur) :: !cases;
   List.iter (fun (name, lines) ->
     Buffer.clear buf;
-    pf "case %s\n" name;
+    pf "case %s\n" name; cur_case := name;
     let c = new_ctx () in
     List.iteri (fun k l -> run_line c l k) lines;
     pf "endcase %s\n" name;
